@@ -1,101 +1,160 @@
 """C12 Relay auth token extraction follows its documented order."""
 from ..lib import *
+from .. import booltab
+from ..booltab import Unsupported
+from ..inline import inlined
 
 FN = "iroh_relay::server::ClientRequest::auth_token"
 
 
 def check(F, rep):
-    rep.clause("source order on all paths: Authorization headers are scanned first and in order; a non-ASCII header value aborts with None without falling back to the query; the first `Bearer` match returns from inside the loop; the query parameter is consulted only after the header iterator is exhausted")
-    rep.undecided("case-insensitive scheme comparison and form-decoding of the query (string semantics)")
-    f = get_fn(F, rep, FN)
+    rep.clause("the Authorization headers are scanned first and in order: per header, the outcome is a function of three tests only - to_str() fails => return None (no later header, no query); else `scheme token` split succeeds and scheme equals `Bearer` ignoring case => return Some(that token); otherwise => next header (decided as the outcome function of one loop iteration, independent of the idiom); the query parameter AUTH_TOKEN_URL_QUERY_PARAM is consulted only after the header iterator is exhausted")
+    rep.undecided("case-insensitive comparison and form-decoding themselves (string semantics); which of several `token` query parameters wins")
+    f0 = get_fn(F, rep, FN)
+    f = inlined(F, f0)
     du = defuse(f)
     ga = find_calls(f, regex=r"^http::header::map::HeaderMap::get_all$")
     rep.exact("order", "HeaderMap::get_all calls", len(ga), 1)
-    if ga:
-        cs = {x[4].get("def") for x in du.origin_facts(ga[0][1]["dest"]["l"], kinds=("const",)) if x[4].get("def")}
-        rep.ob("order", any(str(c).endswith("::AUTHORIZATION") for c in cs), site(f, ga[0][0]), "the scanned header is AUTHORIZATION", skey(F, f, "header-name"))
-    nx = [(b, t) for b, t in find_calls(f, "core::iter::traits::iterator::Iterator::next") if ga and ga[0][1]["dest"]["l"] in du.closure(op_base(t["args"][0]))]
-    rep.exact("order", "header iterator next() calls", len(nx), 1)
+    if not ga:
+        return
+    cs = {x[4].get("def") for x in du.origin_facts(ga[0][1]["dest"]["l"], kinds=("const",)) if x[4].get("def")} | {a.get("def") for a in ga[0][1]["args"] if a["k"] == "const"}
+    rep.ob("order", any(str(c).endswith("::AUTHORIZATION") for c in cs), site(f, ga[0][0]), "the scanned header is AUTHORIZATION", skey(F, f0, "header-name"))
+    nx = [(b, t) for b, t in find_calls(f, "core::iter::traits::iterator::Iterator::next") if ga[0][1]["dest"]["l"] in du.closure(op_base(t["args"][0]))]
     qp = find_calls(f, "iroh_relay::server::ClientRequest::query_pairs")
     rep.exact("order", "query_pairs calls", len(qp), 1)
-    ts = find_calls(f, regex=r"HeaderValue::to_str$")
-    rep.exact("order", "HeaderValue::to_str calls", len(ts), 1)
-    if not ts:
-        # iterator-chain form: the conversion sits in a closure; its `?` leaves only the
-        # closure, so what happens next is the combinator's business
-        SKIP = r"Iterator::(filter_map|find_map|flat_map|filter|flatten|any|position)$"
-        for g in F.tree(f):
-            if g is f:
+    if len(nx) != 1:
+        # iterator-chain form: the per-header logic sits in closures handed to adapters
+        for g in F.tree(f0):
+            if g is f0:
                 continue
             for cb, ct in find_calls(g, regex=r"HeaderValue::to_str$"):
                 rep.fn(g)
-                users = [(b, t) for b, t in f.calls() if any(("closure@" in str(f.locals[op_base(a)]) and ":%d:" % g.line in str(f.locals[op_base(a)])) for a in t["args"] if op_base(a) is not None)]
-                comb = [callee_names(t)[0] for b, t in users]
-                skipping = [c for c in comb if re.search(SKIP, c)]
-                rep.ob("order", not skipping and False, site(g, cb),
-                       "HeaderValue::to_str is evaluated inside a closure handed to %s: a non-ASCII header value only ends that closure call%s instead of ending the extraction with None" % (comb or "an iterator adapter", " and the adapter skips the element and goes on to later headers / the query" if skipping else " (adapter semantics not in the rule's table)"),
-                       skey(F, f, "non-ascii-aborts"))
-    if not (nx and qp and ts):
+                users = [callee_names(t)[0] for b, t in f.calls() if any(op_base(a) is not None and "closure@" in str(f.locals[op_base(a)]) and ":%d:" % g.line in str(f.locals[op_base(a)]) for a in t["args"])]
+                skipping = [c for c in users if re.search(r"Iterator::(filter_map|find_map|flat_map|filter|flatten|any|position)$", c)]
+                rep.ob("order", False, site(g, cb),
+                       "HeaderValue::to_str is evaluated inside a closure handed to %s: a non-ASCII header value only ends that closure call%s instead of ending the extraction with None" % (users or "an iterator adapter", " and the adapter skips the element and goes on to later headers / the query" if skipping else " (adapter semantics not in the rule's table)"),
+                       skey(F, f0, "non-ascii-aborts"))
+        rep.exact("order", "explicit loop over the Authorization headers (header iterator next() calls)", len(nx), 1)
         return
     nb, nt = nx[0]
-    qb = qp[0][0]
     ntests, _ = call_result_tests(f, nb)
-    # (iii) the query is reachable only from iterator exhaustion
-    rep.ob("order", requires_failure(f, qb, ntests), site(f, qb), "query_pairs() is reached only through the None edge of the header iterator (all headers seen first)", skey(F, f, "query-after-exhaustion"))
-    # (i) to_str error edge: returns None without reaching the query or the loop head
-    ttests, _ = call_result_tests(f, ts[0][0])
-    fail_targets = {tg for t in ttests for _, tg in t.failure}
-    reach = set()
-    for tg in fail_targets:
-        reach |= f.reachable(tg)
-    rep.ob("order", bool(fail_targets) and qb not in reach and nb not in reach, site(f, ts[0][0]),
-           "a header value that is not visible ASCII ends the extraction (no fallback to the query, no further headers)", skey(F, f, "non-ascii-aborts"))
-    rets = [(b, i, rv) for b, i, rv in returns_of(f) if b in reach]
-    def is_none(i, rv):
+    some_t = [tg for t in ntests for _, tg in t.success]
+    none_t = [tg for t in ntests for _, tg in t.failure if f.blocks[tg]["t"]["k"] != "unreachable"]
+    if qp:
+        rep.ob("order", requires_failure(f, qp[0][0], ntests), site(f, qp[0][0]), "query_pairs() is reached only through the None edge of the header iterator (all headers seen first)", skey(F, f0, "query-after-exhaustion"))
+    # ---- one iteration as an outcome function
+    ts_calls = find_calls(f, regex=r"HeaderValue::to_str$")
+    so_calls = find_calls(f, regex=r"split_once$")
+    eq_calls = find_calls(f, regex=r"eq_ignore_ascii_case$")
+    rep.exact("order", "HeaderValue::to_str calls", len(ts_calls), 1)
+    rep.exact("order", "split_once calls", len(so_calls), 1)
+    rep.exact("order", "scheme comparisons (eq_ignore_ascii_case)", len(eq_calls), 1)
+    if not (ts_calls and so_calls and eq_calls and some_t):
+        return
+    tsb, tst = ts_calls[0]
+    sob, sot = so_calls[0]
+    eqb, eqt = eq_calls[0]
+    hv = copy_sources(f, op_base(tst["args"][0]))
+    rep.ob("order", bool(hv) and all(x[0] == "call" and x[1].endswith("Iterator::next") for x in hv), site(f, tsb), "to_str() is applied to the current header value", skey(F, f0, "to_str-operand"))
+    sv = copy_sources(f, op_base(sot["args"][0]))
+    rep.ob("order", bool(sv) and all(x[0] == "call" and x[1].endswith("HeaderValue::to_str") for x in sv), site(f, sob), "the text that is split is that header's to_str() result: %s" % sorted(map(str, sv)), skey(F, f0, "split-operand"))
+    sep = [a for a in sot["args"][1:] if a["k"] == "const"]
+    rep.ob("order", any("' '" in str(a.get("v")) for a in sep), site(f, sob), "scheme and token are separated at the first space", skey(F, f0, "separator"))
+    lits = {str(x[4].get("v")) for a in eqt["args"] if op_base(a) is not None for x in du.origin_facts(op_base(a), kinds=("const",))} | {str(a.get("v")) for a in eqt["args"] if a["k"] == "const"}
+    oks = any(x[0] == "call" and x[1].endswith("split_once") and x[2][-1:] == ("0",) for a in eqt["args"] if op_base(a) is not None for x in copy_sources(f, op_base(a)))
+    rep.ob("order", oks and any("Bearer" in l for l in lits), site(f, eqb), "the part before the space is compared with the literal `Bearer`", skey(F, f0, "scheme"))
+    some_rets, none_rets = set(), set()
+    for b, i, rv in returns_of(f):
         if i is None:
-            return is_call_to(rv, "core::ops::try_trait::FromResidual::from_residual")
-        return (rv["k"] == "agg" and rv.get("variant") == "None") or (rv["k"] == "use" and rv["o"]["k"] == "const" and "None" in str(rv["o"].get("v")))
-    rep.ob("order", bool(rets) and all(is_none(i, rv) for b, i, rv in rets), site(f, ts[0][0]),
-           "that path returns None (`?` residual or an explicit None)", skey(F, f, "non-ascii-none"))
-    # (ii) first match wins: Some(token) returned inside the loop, guarded by scheme match
-    somes = [(b, i, rv) for b, i, rv in returns_of(f) if i is not None and rv["k"] == "agg" and rv.get("variant") == "Some"]
-    rep.exact("order", "`Some(token)` returns", len(somes), 1)
-    eq = find_calls(f, regex=r"eq_ignore_ascii_case$")
-    so = find_calls(f, regex=r"split_once$")
-    rep.exact("order", "scheme comparisons", len(eq), 1)
-    rep.exact("order", "split_once calls", len(so), 1)
-    if somes and eq and so:
-        b, i, rv = somes[0]
-        et, _ = call_result_tests(f, eq[0][0], family="bool")
-        st, _ = call_result_tests(f, so[0][0])
-        rep.ob("order", requires(f, b, et) and requires(f, b, st) and requires(f, b, ntests), site(f, b), "Some(token) requires a header, a `scheme token` split and the scheme match", skey(F, f, "some-guard"))
-        rep.ob("order", nb not in f.reachable(b) and qb not in f.reachable(b), site(f, b), "the first match returns immediately (no further header, no query)", skey(F, f, "first-match-returns"))
-        lits = {str(x[4].get("v")) for x in du.origin_facts(op_base(eq[0][1]["args"][1]), kinds=("const",))} | {str(x[4].get("v")) for x in du.origin_facts(op_base(eq[0][1]["args"][0]), kinds=("const",))}
-        rep.ob("order", any("Bearer" in l for l in lits), site(f, eq[0][0]), "scheme literal is `Bearer`", skey(F, f, "scheme"))
-        # token = second half, scheme = first half of the split
-        tok = copy_sources(f, op_base(rv["ops"][0]))
-        tokd = du.closure(op_base(rv["ops"][0]))
-        sch = copy_sources(f, op_base(eq[0][1]["args"][0]))
-        okt = any(x[0] == "call" and x[1].endswith("split_once") and x[2][-1:] == ("1",) for x in copy_sources(f, op_base(find_calls(f, "alloc::string::ToString::to_string")[0][1]["args"][0]))) if find_calls(f, "alloc::string::ToString::to_string") else False
-        oks = any(x[0] == "call" and x[1].endswith("split_once") and x[2][-1:] == ("0",) for x in sch)
-        rep.ob("order", okt and oks, site(f, b), "scheme is the part before the first space, token the part after it", skey(F, f, "split-halves"))
-        # non-matching header continues the loop
-        ftargets = {tg for t in et for _, tg in t.failure} | {tg for t in st for _, tg in t.failure}
-        rep.ob("order", all(nb in f.reachable(tg) for tg in ftargets) and bool(ftargets), site(f, eq[0][0]), "a non-Bearer header moves on to the next header", skey(F, f, "mismatch-continues"))
-    # query: find by the auth-token parameter name
-    fi = find_calls(f, "core::iter::traits::iterator::Iterator::find")
-    rep.exact("order", "query find() calls", len(fi), 1)
-    names = set()
-    for g in F.tree(f):
-        if g is f:
+            if is_call_to(rv, "core::ops::try_trait::FromResidual::from_residual"):
+                none_rets.add(b)
             continue
+        if rv["k"] == "agg" and rv.get("variant") == "Some":
+            some_rets.add(b)
+        elif (rv["k"] == "agg" and rv.get("variant") == "None") or (rv["k"] == "use" and rv["o"]["k"] == "const" and "None" in str(rv["o"].get("v"))):
+            none_rets.add(b)
+    targets = {b: "some" for b in some_rets}
+    targets.update({b: "none" for b in none_rets})
+
+    def tag_of(pl_local):
+        """which tested value a discriminant belongs to"""
+        x = copy_sources(f, pl_local)
+        names = {y[1] for y in x if y[0] == "call"}
+        if names and all(n.endswith("HeaderValue::to_str") for n in names):
+            return "to_str"
+        if names and all(n.endswith("split_once") for n in names):
+            return "split"
+        return None
+    try:
+        paths = booltab.extract_outcomes(f, some_t[0], stop={nb}, targets=targets)
+        bad = []
+        for to_str_ok in (False, True):
+            for split_some in (False, True):
+                for scheme in (False, True):
+                    def value_of(a):
+                        if a.kind == "switch":
+                            l = op_local(a.args[0])
+                            for st in f.blocks[a.bb]["s"]:
+                                if st["k"] == "a" and st["lhs"]["l"] == l and st["rv"]["k"] == "discr":
+                                    pl = st["rv"]["p"]["l"]
+                                    vals = [int(z) for z, _ in f.blocks[a.bb]["t"]["targets"]]
+                                    pick = lambda w: w if w in vals else "otherwise"
+                                    tg = tag_of(pl)
+                                    ty = str(f.locals[pl]).lstrip("&")
+                                    ok = to_str_ok if tg == "to_str" else (split_some if tg == "split" else None)
+                                    if ok is None:
+                                        break
+                                    if "ControlFlow" in ty:
+                                        return pick(0 if ok else 1)
+                                    if ty.startswith("core::option::Option"):
+                                        return pick(1 if ok else 0)
+                                    return pick(0 if ok else 1)      # Result: Ok = 0
+                            raise Unsupported("branch at bb%d" % a.bb)
+                        if a.kind == "call":
+                            if call_matches(a.term, r"eq_ignore_ascii_case$"):
+                                return scheme
+                            if call_matches(a.term, r"Result::(is_ok|is_err)$") and tag_of(op_base(a.args[0])) == "to_str":
+                                return to_str_ok == a.name.endswith("is_ok")
+                            if call_matches(a.term, r"Option::(is_some|is_none)$") and tag_of(op_base(a.args[0])) in ("to_str", "split"):
+                                v = to_str_ok if tag_of(op_base(a.args[0])) == "to_str" else split_some
+                                return v == a.name.endswith("is_some")
+                            raise Unsupported("test %s at bb%d" % (a.name, a.bb))
+                        raise Unsupported("%s at bb%d" % (a.kind, a.bb))
+                    got = booltab.outcome(paths, value_of)
+                    want = "none" if not to_str_ok else ("some" if (split_some and scheme) else "stop")
+                    if got != want:
+                        say = {"none": "return None", "some": "return Some(token)", "stop": "next header", "return": "return"}
+                        bad.append("to_str %s, split %s, scheme %s -> %s (must be %s)" % ("ok" if to_str_ok else "fails", "ok" if split_some else "none", "Bearer" if scheme else "other", say[got], say[want]))
+        rep.ob("order", not bad, site(f, some_t[0]), "per header: non-text value => return None at once; `Bearer <token>` => return Some(token) at once; anything else => next header. Mismatches: %s" % sorted(set(bad))[:4], skey(F, f0, "iteration-outcomes"))
+    except Unsupported as e:
+        rep.ob("order", False, site(f, some_t[0]), "the per-header logic could not be extracted (unrecognised idiom, fails closed): %s" % e, skey(F, f0, "iteration-outcomes"))
+    # the token returned from inside the loop is the part after the space
+    inloop = [b for b in sorted(some_rets) if b in f.reachable(some_t[0], removed_blocks={nb} | set(none_t))]
+    rep.floor("order", "`Some(token)` returns inside the header loop", len(inloop), 1)
+    for b in inloop:
+        rv = [rv for bb, i, rv in returns_of(f) if bb == b and i is not None][0]
+        tok = set()
+        l0 = op_base(rv["ops"][0])
+        dc = def_call(f, l0) if l0 is not None else None
+        if dc is not None and call_matches(dc[1], r"ToString::to_string$|ToOwned::to_owned$|String::from$|Into::into$|From::from$|str::.*to_owned$|to_string$"):
+            tok = copy_sources(f, op_base(dc[1]["args"][0]))
+        else:
+            tok = copy_sources(f, l0) if l0 is not None else set()
+        # sources that can only be a None (the `?` residual of a helper) carry no token
+        tok = {x for x in tok if not (x[0] == "call" and x[1].endswith("from_residual"))}
+        okt = bool(tok) and all(x[0] == "call" and x[1].endswith("split_once") and x[2][-1:] == ("1",) for x in tok)
+        rep.ob("order", okt, site(f, b), "the token returned is the part after the first space: %s" % sorted(map(str, tok)), skey(F, f0, "token-half"))
+    # ---- query fallback names the auth-token parameter
+    names = set()
+    for g in tree_with_helpers(F, f0):
+        gdu = defuse(g)
         for b, t in g.calls():
             for a in t["args"]:
                 if a["k"] == "const" and a.get("def"):
                     names.add(a["def"])
-        gdu = defuse(g)
-        for l in range(len(g.locals)):
-            for o in gdu.origins[l]:
-                if o[0] == "const" and o[3].get("def"):
-                    names.add(o[3]["def"])
-    rep.ob("order", any(str(n).endswith("AUTH_TOKEN_URL_QUERY_PARAM") for n in names), site(f), "the query parameter looked up is AUTH_TOKEN_URL_QUERY_PARAM", skey(F, f, "query-name"))
+        for b, i, s in g.stmts():
+            if s["k"] == "a":
+                for o in ([s["rv"].get("o")] if s["rv"].get("o") else []) + [s["rv"].get("a"), s["rv"].get("b")] + list(s["rv"].get("ops", [])):
+                    if isinstance(o, dict) and o.get("k") == "const" and o.get("def"):
+                        names.add(o["def"])
+    rep.ob("order", any(str(n).endswith("AUTH_TOKEN_URL_QUERY_PARAM") for n in names), site(f0), "the query parameter looked up is AUTH_TOKEN_URL_QUERY_PARAM", skey(F, f0, "query-name"))
